@@ -1,26 +1,29 @@
 // C18 harness: the pool executor (sched/executor_threadpool.go).
 //
 // script  input    (0 nw cap ((outcome gated) ...) (op ...))
-//                  op = (0) Execute a fresh task on a new goroutine | (1 t) open the gate of task t
-//                     | (2) call Shutdown on a new goroutine
-//         observed one snapshot per op, taken when every goroutine of the scenario is parked
-//                  (established from a stop-the-world goroutine dump, not from elapsed time):
-//                  (settled (status ...) (started ...) (ended ...) alive (shut ...))
-//                  status: 0 parked on the queue send, 1 nil, 2 error, 3 panic, 4 parked inside start()
+//
+//	         op = (0) Execute a fresh task on a new goroutine | (1 t) open the gate of task t
+//	            | (2) call Shutdown on a new goroutine
+//	observed one snapshot per op, taken when every goroutine of the scenario is parked
+//	         (established from a stop-the-world goroutine dump, not from elapsed time):
+//	         (settled (status ...) (started ...) (ended ...) alive (shut ...))
+//	         status: 0 parked on the queue send, 1 nil, 2 error, 3 panic, 4 parked inside start()
+//
 // conc    input    (1 nw cap nsub per seed shutafter)
-//                  nsub goroutines leave a barrier together and submit `per` tasks each; another
-//                  goroutine calls Shutdown once `shutafter` tasks have run (or all callers are back)
-//         observed ((status ...) (early ...) (runs ...) (endedbefore ...) alive shutret inconclusive)
+//
+//	         nsub goroutines leave a barrier together and submit `per` tasks each; another
+//	         goroutine calls Shutdown once `shutafter` tasks have run (or all callers are back)
+//	observed ((status ...) (early ...) (runs ...) (endedbefore ...) alive shutret inconclusive)
 package main
 
 import (
 	"bytes"
 	"errors"
 	"fmt"
-	"os/exec"
 	"io"
 	"log"
 	"os"
+	"os/exec"
 	"runtime"
 	"strconv"
 	"strings"
@@ -1412,6 +1415,9 @@ func run(in Sx) Sx {
 	if in.At(0).AsInt() == 0 {
 		return runScript(in)
 	}
+	if in.Len() > 8 && in.At(8).AsInt() > 0 { // GOMAXPROCS for this scenario
+		defer runtime.GOMAXPROCS(runtime.GOMAXPROCS(in.At(8).AsInt()))
+	}
 	if in.Len() > 7 && in.At(7).AsInt() == 5 {
 		return runLean(in)
 	}
@@ -1647,7 +1653,24 @@ func gen(a Args, out *Out) {
 	if a.Thorough() {
 		nscript, ndir, nconc, nrace, nfresh = 4000, 300, 1500, 800, 10000
 	}
+	// VERIF_FOCUS_KINDS=kind1,kind2 (set by bin/check's extended search): spend the run on these classes
+	focus := map[string]bool{}
+	for _, k := range strings.Split(os.Getenv("VERIF_FOCUS_KINDS"), ",") {
+		if k != "" {
+			focus[k] = true
+		}
+	}
+	procs := []int{0, 2, 4}
+	nlean := 0
 	emit := func(kind string, in Sx) {
+		if len(focus) > 0 && !focus[kind] {
+			return
+		}
+		switch kind { // the thin races are run under several degrees of parallelism
+		case "leanrace", "leanfresh", "startshut", "startrace", "fresh":
+			in = ListOf(append(append([]Sx(nil), in.L...), Int(int64(procs[nlean%len(procs)]))))
+			nlean++
+		}
 		if atomic.LoadInt32(&stuckSeen) >= 12 {
 			out.Count("skipped-after-12-stuck-executors")
 			return
